@@ -20,6 +20,23 @@ pub struct Case {
     /// None | linux | windows
     os: Option<String>,
     bp_uri: String,
+    /// an earlier packaging into the same destination from the same source directory with this
+    /// descriptor (deps, os, buildpack uri); the result must not depend on it
+    #[serde(default)]
+    prev: Option<(Vec<String>, Option<String>, String)>,
+}
+
+const BP_URIS: [&str; 7] = [".", "docker://docker.io/x/meta", "./", "buildpack", "../shared/meta-buildpack", "/abs/meta", "urn:cnb:registry:org/meta@1"];
+
+fn descriptor_text(deps: &[String], os: &Option<String>, bp_uri: &str) -> String {
+    let mut p = format!("[buildpack]\nuri = \"{bp_uri}\"\n");
+    for d in deps {
+        p.push_str(&format!("\n[[dependencies]]\nuri = \"{d}\"\n"));
+    }
+    if let Some(os) = os {
+        p.push_str(&format!("\n[platform]\nos = \"{os}\"\n"));
+    }
+    p
 }
 
 const FIXED_KINDS: [&str; 7] = ["libcnb:x/y", "libcnb:z", "a/../b", "/abs/dir/../p", "docker://docker.io/org/img:1.2", "https://example.com/a/../b.cnb?q=1#frag", "urn:cnb:registry:org/bp@1.0.0"];
@@ -54,14 +71,7 @@ fn run_case(c: &Case) -> (Vec<Viol>, String) {
     std::fs::create_dir_all(&dst).unwrap();
     let bptoml = "api = \"0.10\"\n\n[buildpack]\nid = \"verif/meta\"\nversion = \"0.0.1\"\n\n[[order]]\n\n[[order.group]]\nid = \"x/y\"\nversion = \"0.0.1\"\n";
     std::fs::write(src.join("buildpack.toml"), bptoml).unwrap();
-    let mut p = format!("[buildpack]\nuri = \"{}\"\n", c.bp_uri);
-    for d in &c.deps {
-        p.push_str(&format!("\n[[dependencies]]\nuri = \"{d}\"\n"));
-    }
-    if let Some(os) = &c.os {
-        p.push_str(&format!("\n[platform]\nos = \"{os}\"\n"));
-    }
-    std::fs::write(src.join("package.toml"), &p).unwrap();
+    let p = descriptor_text(&c.deps, &c.os, &c.bp_uri);
     let mut map: BTreeMap<BuildpackId, PathBuf> = BTreeMap::new();
     if c.map != 1 {
         map.insert("x/y".parse().unwrap(), packaged_path(root, "x/y"));
@@ -70,6 +80,11 @@ fn run_case(c: &Case) -> (Vec<Viol>, String) {
         map.insert("z".parse().unwrap(), packaged_path(root, "z"));
     }
     map.insert("unrelated".parse().unwrap(), packaged_path(root, "unrelated"));
+    if let Some((pd, pos, puri)) = &c.prev {
+        std::fs::write(src.join("package.toml"), descriptor_text(pd, pos, puri)).unwrap();
+        let _ = package_composite_buildpack(&src, &dst, &map);
+    }
+    std::fs::write(src.join("package.toml"), &p).unwrap();
     let r = package_composite_buildpack(&src, &dst, &map);
     let replay = json!({"case": c});
     let mut v: Vec<Viol> = Vec::new();
@@ -135,7 +150,7 @@ fn run_case(c: &Case) -> (Vec<Viol>, String) {
             }
             let got_uri = doc.get("buildpack").and_then(|b| b.get("uri")).and_then(|u| u.as_str()).unwrap_or("<none>");
             if got_uri != c.bp_uri {
-                v.push(("buildpack-uri-changed".into(), format!("{c:?}: buildpack.uri {got_uri:?}"), replay.clone()));
+                v.push(("buildpack-uri-changed".into(), format!("{c:?}: buildpack.uri {got_uri:?}").replace(root.to_str().unwrap(), "<root>"), replay.clone()));
             }
             let got_os = doc.get("platform").and_then(|b| b.get("os")).and_then(|u| u.as_str()).unwrap_or("linux");
             if got_os != c.os.as_deref().unwrap_or("linux") {
@@ -229,16 +244,22 @@ pub fn run(args: &Args) {
             for (i, src) in srcs.iter().enumerate() {
                 // platform and buildpack uri rotate with the tuple (full product in thorough)
                 let oss = [None, Some("linux".to_string()), Some("windows".to_string())];
-                let uris = [".", "docker://docker.io/x/meta"];
+                let uris = BP_URIS;
                 if args.thorough() {
                     for os in &oss {
                         for u in uris {
-                            cases.push(Case { deps: t.clone(), map, src: src.to_string(), os: os.clone(), bp_uri: u.to_string() });
+                            cases.push(Case { deps: t.clone(), map, src: src.to_string(), os: os.clone(), bp_uri: u.to_string(), prev: None });
                         }
                     }
                 } else {
                     let k = t.len() + map as usize + i;
-                    cases.push(Case { deps: t.clone(), map, src: src.to_string(), os: oss[k % 3].clone(), bp_uri: uris[k % 2].to_string() });
+                    cases.push(Case { deps: t.clone(), map, src: src.to_string(), os: oss[k % 3].clone(), bp_uri: uris[k % uris.len()].to_string(), prev: None });
+                    if t.len() <= 1 && map == 0 {
+                        // every buildpack uri with every short tuple
+                        for u in uris {
+                            cases.push(Case { deps: t.clone(), map, src: src.to_string(), os: oss[k % 3].clone(), bp_uri: u.to_string(), prev: None });
+                        }
+                    }
                 }
             }
         }
@@ -247,8 +268,24 @@ pub fn run(args: &Args) {
     let rels = rel_paths(max_segs);
     for r in &rels {
         for src in srcs {
-            cases.push(Case { deps: vec![r.clone()], map: 0, src: src.to_string(), os: None, bp_uri: ".".into() });
-            cases.push(Case { deps: vec!["libcnb:z".into(), r.clone(), "docker://x/y".into()], map: 0, src: src.to_string(), os: None, bp_uri: ".".into() });
+            cases.push(Case { deps: vec![r.clone()], map: 0, src: src.to_string(), os: None, bp_uri: ".".into(), prev: None });
+            cases.push(Case { deps: vec!["libcnb:z".into(), r.clone(), "docker://x/y".into()], map: 0, src: src.to_string(), os: None, bp_uri: ".".into(), prev: None });
+        }
+    }
+    // histories: every ordered pair of descriptors packaged one after the other into the same destination
+    let mut descs: Vec<(Vec<String>, Option<String>, String)> = Vec::new();
+    for deps in [vec![], vec!["libcnb:z".to_string()], vec!["a/../b".to_string(), "docker://x/y".to_string()]] {
+        for os in [None, Some("linux".to_string()), Some("windows".to_string())] {
+            for u in [".", "docker://docker.io/x/meta"] {
+                descs.push((deps.clone(), os.clone(), u.to_string()));
+            }
+        }
+    }
+    let mut pairs = 0u64;
+    for a in &descs {
+        for b in &descs {
+            cases.push(Case { deps: b.0.clone(), map: 0, src: "s".into(), os: b.1.clone(), bp_uri: b.2.clone(), prev: Some(a.clone()) });
+            pairs += 1;
         }
     }
     let results: Vec<_> = cases.par_iter().map(run_case).collect();
@@ -263,9 +300,10 @@ pub fn run(args: &Args) {
     rep.cov("evaluations", cases.len() as u64);
     rep.cov("distinct_nontrivial", nontrivial);
     rep.cov("relative_path_shapes", rels.len() as u64);
+    rep.cov("repackaging_pairs", pairs);
     rep.cov("dependency_tuples", tuples.len() as u64);
     rep.cov("distinct_outcomes", json!(outcomes));
-    rep.cov("rule", "package.toml documents built from all ordered dependency tuples (repetition allowed) over 7 URI kinds x id->path maps {complete, missing x/y, missing z} x 2 source locations x platform x buildpack uri, plus every relative path of <= k segments over {a, ., .., empty} with/without leading ./ and trailing /, run through the real package_composite_buildpack; the written file is re-read generically and compared with the reference (lexical normalisation). non-trivial = at least one dependency");
+    rep.cov("rule", "package.toml documents built from all ordered dependency tuples (repetition allowed) over 7 URI kinds x id->path maps {complete, missing x/y, missing z} x 2 source locations x platform x 7 buildpack uris (., ./, relative, parent-relative, absolute, docker, urn), plus every ordered pair of 18 descriptors packaged one after the other into the same destination (the second result must be what a fresh destination gives), plus every relative path of <= k segments over {a, ., .., empty} with/without leading ./ and trailing /, run through the real package_composite_buildpack; the written file is re-read generically and compared with the reference (lexical normalisation). non-trivial = at least one dependency");
     rep.cov("bound", json!({"max_tuple_len": max_len, "max_segments": max_segs}));
     rep.cov("exhaustive", true);
     rep.sample(json!(cases[cases.len() / 3]));
